@@ -104,6 +104,21 @@ def flush_before_seek(ctx, prog, rule):
             guards["beyond-end"] = f.ok_reachable(start=[tr]) is None and reload_b is not None and f.dominates(bi, reload_b)
         if a[0] == "binop" and a[1] == "Rem" and const_val(a[3]) == PAGE and const_val(b) == PAYLOAD and d[1] == "Ge":
             guards["into-checksum"] = f.ok_reachable(start=[tr]) is None and reload_b is not None and f.dominates(bi, reload_b)
+    # the same rejection in any spelling of the comparison (offset < 1020 accepted, > 1019 rejected, through try_from)
+    if not guards["into-checksum"]:
+        def in_page(x):
+            x = strip(x)
+            while x[0] == "cast":
+                x = strip(x[2])
+            return x[0] == "binop" and x[1] == "Rem" and strip_casts(x[2]) == ("param", 2) and const_val(x[3]) == PAGE
+        for bi in f.cfg():
+            ot = order_test(f, R, bi)
+            if ot is None:
+                continue
+            rej = succ_when_at_least(ot, in_page, PAYLOAD)
+            reload_b = S.steps["reload"][0] if S.steps["reload"] else None
+            if rej is not None and reload_b is not None:
+                guards["into-checksum"] = f.ok_reachable(start=[rej]) is None and f.dominates(bi, reload_b)
     for k, v in guards.items():
         ctx.ob(rule, "rejection/%s/%s" % (k, short(f.path)), v, "physical_seek fails for a target %s, before the device is repositioned" % k)
 
